@@ -104,6 +104,7 @@ type gCfg struct {
 	maxAP    int  // array positions per location / stored value
 	idBase   string
 	symTyp   bool // stored type byte symbolic (else 't')
+	storeAll bool // every storable occurrence is stored (no symbolic bit)
 	noFx     bool // freq of hits with locations is exactly the number of locations
 }
 
@@ -230,7 +231,7 @@ func vGenBatch(cfg gCfg) ([]index.Document, *sSpec) {
 				var val []byte
 				var ap []uint64
 				typ := byte('t')
-				if gf.store && vBool(fmt.Sprint(cfg.prefix, "st", tag)) {
+				if gf.store && (cfg.storeAll || vBool(fmt.Sprint(cfg.prefix, "st", tag))) {
 					opts |= index.StoreField
 					// distinct, position-coded, lengths 0..3
 					vl := (d + fi + o) % 4
